@@ -39,7 +39,7 @@ RULE = ("nested enumeration, each case generated once: (det) transform x every (
         "(aperiodic-marked pattern, perfect simulation, integer-valued pair): every det score with both excludenull, "
         "mean simulation, affine/scale invariances, corr with p = 1 and p = 3 members (4 variants), excludenull with "
         "NaN/+-inf/out-of-domain values scattered in both series; category series of every ladder length over 2, 3, 6 "
-        "categories and over 7, 33, 100, 200 categories x 2 patterns x ncat None/kmin/kmin+1; (layout) every ladder "
+        "categories and over 7, 33 (n >= 31), 100 (n >= 100), 200 (n >= 500) categories x 2 patterns x ncat None/kmin/kmin+1; (layout) every ladder "
         "case and the first case of every det/corr/cm/bin unit called again with the same values as float32, int64 "
         "(when exactly representable), strided, negative-stride, read-only, [n,1] column, pandas Series/DataFrame, "
         "Fortran-ordered ensemble, narrow integer / bool category arrays: must reproduce the float64 C-contiguous "
@@ -59,7 +59,8 @@ ASSUMPTIONS = [
     "ensemble NaN members, 2-D obs, the censored correlation type and default trans argument are outside the property text and not enumerated",
     "extension modules rebuilt from the working tree; metrics.bias/nse/kge/corr/confusion_matrix/binary are pure Python",
     "size ladder: same Fraction/mpmath oracle on the Fractions of the transformed float64 values; tolerance unchanged (1e-9 relative; numpy pairwise sums keep the rounding noise below 1e-13 at n = 10001)",
-    "confusion_matrix beyond the quantifier's 6 categories (7, 33, 100, 200): the statement's counting rule is applied unchanged; keys carry ':ncat>6'",
+    "confusion_matrix beyond the quantifier's 6 categories (7, 33, 100, 200; lengths at which most categories occur, the implementation inserts absent categories one at a time): the statement's counting rule is applied unchanged; keys carry ':ncat>6'",
+    "ladder, corr of 3-member ensembles under Log: Spearman of the member mean is not judged (float means of the same members in another order differ by an ulp and are not tied, the Fraction means are); Pearson/mean, Pearson/median and Spearman/median are",
     "layout variants hold exactly the same values; a layout rejected with a Python exception is accepted and counted (e.g. Log of float32/int64 arrays: the safe cast back to the input dtype raises); results must equal the float64 C-contiguous call within 1e-9 relative, except float32 series, whose scores numpy evaluates in float32 (trans.forward returns the input dtype): tolerance 1e-4 there (observed float32 noise < 1e-6)",
     "the [n,1] column layout is documented by bias/nse/kge/corr ('[n] or [n,1] array') and is judged; obs and sim are given in the same layout, plus sim alone as float32/int64",
 ]
@@ -98,6 +99,7 @@ LADDER_Q = [7, 8, 9, 15, 16, 17, 31, 32, 33, 63, 64, 65, 100, 127, 128, 129, 255
 LADDER_T = LADDER_Q + [2047, 2048, 2049, 4095, 4096, 4097, 10001]
 LADDER_TRANS = [0, 1]                   # Identity, Log (indices of TRANS)
 LADDER_K = [2, 3, 6, 7, 33, 100, 200]   # category counts (the quantifier stops at 6; see ASSUMPTIONS)
+LADDER_K_MIN_N = {33: 31, 100: 100, 200: 500}   # confusion_matrix inserts absent categories one by one (seconds for 200 absent ones)
 TOL32 = 1e-4                            # float32 series: numpy evaluates the score in float32 (observed noise < 1e-6)
 
 AFFINE = [(2.0, 0.0), (-0.5, 1.5), (1.0, -3.0), (1.0, 262144.0), (1.0, -262144.0)]   # the last two: |mean|/sd ~ 2e5, still non-degenerate (1e-6 relative)
@@ -118,7 +120,7 @@ def bound_text(tier, seed):
                 "null: n=3 >=2 complete, 6 letters Identity (with Spearman), 2 finite + NaN,+inf + out-of-domain letters others; "
                 "cm: {0,1} length<=4, {0,1,2} length<=3, 4..6 categories <=1 deviation; bin: all tables 1..6 (1296) + 256 tables over "
                 "{1,3,1000,60000+7*seed}; ladder: Identity, Log x 29 lengths 7..1025 around powers of two x (3 det pairs, mean-sim, "
-                "invariances, corr p=1,3, excludenull with 6 null values); cm: 29 lengths x 7 category counts (2,3,6,7,33,100,200) x 2 "
+                "invariances, corr p=1,3, excludenull with 6 null values); cm: 29 lengths x category counts 2,3,6,7 and 33 (n>=31), 100 (n>=100), 200 (n>=500) x 2 "
                 "patterns x 3 ncat; layouts: up to 10 per 1-D series, 7 per ensemble, 11 per category series, 6 per table, on every "
                 "ladder case and the first case of every unit" % (ex["name"], ex["kw"]))
     return ("det: 7 transforms (6 fixed + seed-rotated %s%s), n=2,3 all pairs over 5 letters (both excludenull), n=4 all pairs over "
@@ -127,7 +129,7 @@ def bound_text(tier, seed):
             "out-of-domain letters all transforms (with Spearman), n=4 >=3 complete 6 letters Identity; cm: {0,1} length<=6, {0,1,2} "
             "length<=4, 4..6 categories <=2 deviations; bin: all tables 1..9 (6561) + 1296 tables over {1,2,7,1000,60000+7*seed,10^7}; "
             "ladder: Identity, Log x 36 lengths 7..4097 around powers of two and 10001 x (3 det pairs, mean-sim, invariances, corr p=1,3, "
-            "excludenull with 6 null values); cm: 36 lengths x 7 category counts (2,3,6,7,33,100,200) x 2 patterns x 3 ncat; layouts: up "
+            "excludenull with 6 null values); cm: 36 lengths x category counts 2,3,6,7 and 33 (n>=31), 100 (n>=100), 200 (n>=500) x 2 patterns x 3 ncat; layouts: up "
             "to 10 per 1-D series, 7 per ensemble, 11 per category series, 6 per table, on every ladder case and the first case of every unit"
             % (ex["name"], ex["kw"]))
 
@@ -526,7 +528,34 @@ def check_corr(ctx, M, spec, T, io, ens, variants=CORR_VARIANTS, excludenull=Fal
             ctx.case(False, outcome=oc)
             ctx.count("unjudged.degenerate_obs")
             continue
-        e_ = expected_corr(io.tf, row_stat(rows, stat), ctype)
+        rs_ = row_stat(rows, stat)
+        if ctype == "Spearman":
+            # ranks of the ensemble statistic: two rows whose exact statistics are equal (or closer than
+            # float rounding) but whose member sequences differ may be ranked either way by a float
+            # evaluation (summation order) - such cases are not judged
+            fragile = False
+            # float sums of small dyadic values are exact, whatever the order: no fragility then
+            exact_sums = all(v.denominator <= 2 ** 20 and abs(v) < 2 ** 20 for r_ in rows for v in r_)
+            if not exact_sums:
+                # pairs are examined in sorted order (n log n; the ladder has thousands of rows): equal statistics with
+                # different member sequences (only the mean of >= 3 members depends on the order of evaluation; the
+                # median and a two-term sum do not), or neighbours closer than 1e-12 relative
+                order_matters = stat == "mean" and max(len(r_) for r_ in rows) >= 3
+                idx_ = sorted(range(len(rs_)), key=lambda k_: rs_[k_])
+                for a_, b_ in zip(idx_, idx_[1:]):
+                    d_ = rs_[b_] - rs_[a_]
+                    if d_ == 0:
+                        if order_matters and rows[a_] != rows[b_]:
+                            fragile = True
+                            break
+                    elif d_ <= Fraction(1, 10 ** 12) * max(1, abs(rs_[a_]), abs(rs_[b_])):
+                        fragile = True
+                        break
+            if fragile:
+                ctx.case(False, outcome=oc)
+                ctx.count("unjudged.spearman_tie_decided_by_rounding")
+                continue
+        e_ = expected_corr(io.tf, rs_, ctype)
         if e_ is None:
             ctx.case(False, outcome=oc)
             ctx.count("unjudged.undefined.corr")
@@ -902,7 +931,7 @@ def check_det_layouts(ctx, M, spec, T, obs, sim):
                 continue
             ctx.case(True, outcome=v if not math.isnan(v) else "nan")
             ctx.count("layout.judged.%s" % name)
-            tol = TOL32 if name == "float32" else TOL
+            tol = TOL32 if "float32" in name else TOL
             if not lclose(v, base, tol):
                 ctx.violation("%s:%s:layout=%s" % (score, tn, name) + (":nan" if math.isnan(v) else ""), dict(case, score=score, layout=name),
                               "%s(%s%s) with the series given as %s (n=%d) = %r, the float64 C-contiguous call gives %r" % (
@@ -1056,7 +1085,11 @@ def run_ladder_unit(unit, ctx, M):
                 ens3 = ladder_ens(n, spec, sim)
                 for ens in (ens1, ens3):
                     ctx.count("ladder.corr_cases")
-                    check_corr(ctx, M, spec, T, io, ens)
+                    # Spearman of the mean of several members needs exact float means (rows holding the same members in
+                    # another order must tie, as they do in the Fraction oracle): Identity over dyadic letters only
+                    exactmeans = spec["name"] == "Identity" or len(ens[0]) == 1
+                    check_corr(ctx, M, spec, T, io, ens,
+                               variants=CORR_VARIANTS if exactmeans else [v for v in CORR_VARIANTS if v != ("Spearman", "mean")])
                     check_corr_layouts(ctx, M, spec, T, obs, ens)
                 # excludenull with scattered null values
                 on, sn = ladder_null(n, spec, obs, sim)
@@ -1072,6 +1105,8 @@ def run_cmladder_unit(unit, ctx, M):
     first = True
     for n in unit["ns"]:
         for K in unit["ks"]:
+            if n < LADDER_K_MIN_N.get(K, 0):
+                continue
             for pattern in (0, 1):
                 obs, sim = cm_ladder_pair(n, K, pattern)
                 for ncat in cm_ncats(obs, sim):
@@ -1082,7 +1117,7 @@ def run_cmladder_unit(unit, ctx, M):
                     ctx.count("ladder.cm_cases")
                     ctx.count("ladder.cm.K=%d" % K)
                     check_cm(ctx, M, obs, sim, ncat)
-                    if ncat is None or ncat == K:
+                    if ncat == K or (ncat is None and K <= 6):
                         check_cm_layouts(ctx, M, obs, sim, ncat)
 
 # ---------------------------------------------------------------------------
